@@ -334,7 +334,7 @@ impl Stream for RandomBodies
 	}
 	fn count(&self, tier: Tier) -> u64
 	{
-		tier.pick(20_000, 600_000)
+		tier.pick(120_000, 600_000)
 	}
 	fn choice_len(&self) -> usize
 	{
